@@ -108,6 +108,12 @@ def build (fs : Files) (rootData : Option Json) (rootCx : Cx) (rootSrc : String)
       | _ => false }
   { nodes := nodes, cxs := cxs, texts := texts, world := w }
 
+/-- positions of an object that are reference-capable by type but not walked -/
+def skippedOf (b : Built) (i : Nat) : List Nat :=
+  match b.nodes[i]? with
+  | some m => m.skipped.filterMap (fun (p, k) => findObj b.nodes m.cx m.src p k false)
+  | none => []
+
 /-- reference objects reachable in the loaded object graph, with the value each was given -/
 def reach (b : Built) (s : St) : Nat → List Obj → List Obj → List (String × Option Json) → List (String × Option Json)
   | 0, _, _, acc => acc
@@ -119,7 +125,7 @@ def reach (b : Built) (s : St) : Nat → List Obj → List Obj → List (String 
       | none => reach b s f rest (i :: seen) acc
       | some n =>
         match n.ref with
-        | none => reach b s f (rest ++ n.kids) (i :: seen) acc
+        | none => reach b s f (rest ++ n.kids ++ skippedOf b i) (i :: seen) acc
         | some _ =>
           let rid := ((b.nodes[i]?).map (·.rid)).getD "?"
           match s.get i with
@@ -157,14 +163,14 @@ def handle (j : Json) : Json :=
   let depthMax := b.nodes.foldl (fun m n => max m n.ptr.length) 0
   let fuel := (b.texts.length + 1) * (depthMax + 1)
   let res := load w fuel 0
-  let topIds : List Obj := (docChildren rootJ).filterMap (fun ch => findObj b.nodes rootCx rootSrc ch.toks ch.kind false)
+  let topIds : List Obj := (docAll rootJ).filterMap (fun ch => findObj b.nodes rootCx rootSrc ch.toks ch.kind false)
   let (outcome, refs, nback, foreign, nnil, nskip, nempty) := match res with
     | .ok s => ("ok", reach b s 4000 topIds [] [], s.nback, s.foreign, s.nnil, s.nskip, s.nempty)
     | .err fg => ("err", [], 0, fg, 0, 0, 0)
     | .outOfFuel => ("outOfFuel", [], 0, false, 0, 0, 0)
   -- specification
   let specRefs := specWalk fs rootData 4000
-    ((docChildren rootJ).map (fun c => ((if isData then none else some (storeKey root)), c.kind, c.j, c.toks.getLast?.getD ""))) (if isData then [] else [storeKey root]) []
+    ((specDocChildren rootJ).map (fun c => ((if isData then none else some (storeKey root)), c.kind, c.j, c.toks.getLast?.getD ""))) (if isData then [] else [storeKey root]) []
   let specOK := specRefs.all (·.2.isSome)
   -- exclusion classes
   let refNodes := b.nodes.filter (fun n => n.ref.isSome && !n.copy && n.nat)
